@@ -51,10 +51,9 @@ def roundtrip(src, std, ic):
 
 
 def check_case(res, cid, prog, layer_tag):
-    srcs = {True: G.render(prog), False: scenarios.with_comments(prog)}
+    srcs = [(True, G.render(prog)), (False, scenarios.with_comments(prog)), (False, scenarios.with_comments(prog, 1))]
     for std in G.stds_for(prog):
-        for ic in (True, False):
-            src = srcs[ic]
+        for ic, src in srcs:
             res.evals += 1
             hk = h64(src, std, str(ic))
             res.states.add(hk)
